@@ -11,6 +11,7 @@
 package main
 
 import (
+	"bytes"
 	"fmt"
 	"sort"
 	"strconv"
@@ -19,6 +20,7 @@ import (
 	"github.com/goplus/xgo/ast"
 	"github.com/goplus/xgo/format"
 	"github.com/goplus/xgo/parser"
+	"github.com/goplus/xgo/printer"
 	"github.com/goplus/xgo/token"
 	"verifharness/vh"
 )
@@ -125,10 +127,21 @@ func counts(ds []decl) map[pair]int {
 	return m
 }
 
+// run formats src through both entry points: format.Source(src) and parser.ParseFile +
+// format.Node(*ast.File) (which sorts imports on a re-parsed copy of its own printout).
 func run(src []byte, o *vh.Out) {
+	runVia(src, o, "")
+	runVia(src, o, ":node")
+}
+
+var printCfg = printer.Config{Mode: printer.UseSpaces | printer.TabIndent, Tabwidth: 8}
+
+func runVia(src []byte, o *vh.Out, via string) {
 	before, err := view(src)
 	if err != nil {
-		o.Count("input_not_parsed")
+		if via == "" {
+			o.Count("input_not_parsed")
+		}
 		return
 	}
 	var out []byte
@@ -139,21 +152,53 @@ func run(src []byte, o *vh.Out) {
 				ferr = fmt.Errorf("PANIC %v", e)
 			}
 		}()
-		out, ferr = format.Source(src, false)
+		if via == "" {
+			out, ferr = format.Source(src, false)
+			return
+		}
+		// format.Node sorts what it re-parses from its own printout: the "before" view of this
+		// path is that printout (same imports, canonical layout)
+		fset := token.NewFileSet()
+		file, perr := parser.ParseFile(fset, "", src, parser.ParseComments)
+		if perr != nil {
+			ferr = perr
+			return
+		}
+		var pb bytes.Buffer
+		if ferr = printCfg.Fprint(&pb, fset, file); ferr != nil {
+			return
+		}
+		if before, ferr = view(pb.Bytes()); ferr != nil {
+			return
+		}
+		fset2 := token.NewFileSet()
+		file2, perr := parser.ParseFile(fset2, "", src, parser.ParseComments)
+		if perr != nil {
+			ferr = perr
+			return
+		}
+		var nb bytes.Buffer
+		ferr = format.Node(&nb, fset2, file2)
+		out = nb.Bytes()
 	}()
 	cl := caseLine(before)
 	clsrc := cl + "\t" + vh.Hex(src) // oracle lines carry the source so that they can be replayed
 	if ferr != nil {
 		// formatting a parseable file failed: not an import-set question, but nothing to compare
-		o.Count("format_failed")
+		o.Count("format_failed" + via)
 		if strings.HasPrefix(ferr.Error(), "PANIC") {
-			o.Oracle("format-panic", clsrc, ferr.Error())
+			o.Oracle("format-panic"+via, clsrc, ferr.Error())
 		}
 		return
 	}
 	after, err := view(out)
 	if err != nil {
-		o.Oracle("output-not-parsed", clsrc, err.Error())
+		if strings.Contains(err.Error(), "invalid line number") || strings.Contains(err.Error(), "invalid filename") {
+			// the printer moved a malformed would-be //line comment to column 1: not an import question
+			o.Count("output_invalid_line_directive")
+			return
+		}
+		o.Oracle("output-not-parsed"+via, clsrc, err.Error())
 		return
 	}
 	nspecs, ngrouped, nruns, ndups, ncomments, maxrun := 0, 0, 0, 0, 0, 0
@@ -185,14 +230,14 @@ func run(src []byte, o *vh.Out) {
 			ndups++
 		}
 		if ca[p] == 0 {
-			o.Oracle("import-lost", clsrc, fmt.Sprintf("%q %q", p.name, p.path))
+			o.Oracle("import-lost"+via, clsrc, fmt.Sprintf("%q %q", p.name, p.path))
 		} else if ca[p] > n {
-			o.Oracle("import-multiplied", clsrc, fmt.Sprintf("%q %q", p.name, p.path))
+			o.Oracle("import-multiplied"+via, clsrc, fmt.Sprintf("%q %q", p.name, p.path))
 		}
 	}
 	for p := range ca {
 		if cb[p] == 0 {
-			o.Oracle("import-added", clsrc, fmt.Sprintf("%q %q", p.name, p.path))
+			o.Oracle("import-added"+via, clsrc, fmt.Sprintf("%q %q", p.name, p.path))
 		}
 	}
 	// a copy that carries a comment is never dropped: per (name, path) at least as many specs
@@ -207,20 +252,20 @@ func run(src []byte, o *vh.Out) {
 	}
 	for p, n := range commented {
 		if ca[p] < n {
-			o.Oracle("commented-duplicate-dropped", clsrc, fmt.Sprintf("%q %q", p.name, p.path))
+			o.Oracle("commented-duplicate-dropped"+via, clsrc, fmt.Sprintf("%q %q", p.name, p.path))
 		}
 	}
 	if len(before) != len(after) {
-		o.Oracle("decl-count", clsrc, fmt.Sprintf("%d -> %d", len(before), len(after)))
+		o.Oracle("decl-count"+via, clsrc, fmt.Sprintf("%d -> %d", len(before), len(after)))
 	} else {
 		for i := range before {
 			if before[i].kind != after[i].kind {
-				o.Oracle("decl-kind", clsrc, fmt.Sprint(i))
+				o.Oracle("decl-kind"+via, clsrc, fmt.Sprint(i))
 				continue
 			}
 			if before[i].kind == 'U' {
 				if outLine(before[i:i+1]) != outLine(after[i:i+1]) {
-					o.Oracle("ungrouped-changed", clsrc, fmt.Sprint(i))
+					o.Oracle("ungrouped-changed"+via, clsrc, fmt.Sprint(i))
 				}
 			}
 		}
@@ -232,9 +277,14 @@ func run(src []byte, o *vh.Out) {
 		}
 		for j := 1; j < len(d.specs); j++ {
 			if d.specs[j].line <= 1+d.specs[j-1].endLine && d.specs[j].path < d.specs[j-1].path {
-				o.Oracle("group-unsorted", clsrc, fmt.Sprintf("%q after %q", d.specs[j].path, d.specs[j-1].path))
+				o.Oracle("group-unsorted"+via, clsrc, fmt.Sprintf("%q after %q", d.specs[j].path, d.specs[j-1].path))
 			}
 		}
+	}
+	if via != "" {
+		o.Count("via_node")
+		o.Case(cl, outLine(after), false)
+		return
 	}
 	o.Count(fmt.Sprintf("specs_%s", bucket(nspecs)))
 	o.Count(fmt.Sprintf("runs_%s", bucket(nruns)))
@@ -289,10 +339,21 @@ func lit(r *vh.Rand, p string) string {
 	return strconv.Quote(p)
 }
 
+func lineDirective(r *vh.Rand, inline bool) string {
+	n := 1 + r.Intn(400)
+	if inline {
+		return fmt.Sprintf("/*line f%d.go:%d:%d*/", r.Intn(3), n, 1+r.Intn(9))
+	}
+	return fmt.Sprintf("//line f%d.go:%d", r.Intn(3), n)
+}
+
 func genSpec(r *vh.Rand, pool []string) string {
 	s := ""
 	if r.Chance(8) {
 		s += "/* lead */ "
+	}
+	if r.Chance(9) {
+		s += lineDirective(r, true) // renumbers the rest of the line and what follows, adds no physical line
 	}
 	if n := r.Pick(names); n != "" {
 		s += n + " "
@@ -319,7 +380,13 @@ func genFile(r *vh.Rand) []byte {
 		pool[i] = r.Pick(paths)
 	}
 	nd := 1 + r.Intn(3)
+	if r.Chance(6) {
+		b.WriteString(lineDirective(r, false) + "\n")
+	}
 	for d := 0; d < nd; d++ {
+		if d > 0 && r.Chance(6) {
+			b.WriteString(lineDirective(r, r.Bool()) + "\n")
+		}
 		if r.Chance(25) { // ungrouped
 			b.WriteString("import " + genSpec(r, pool) + "\n")
 			if r.Chance(40) {
@@ -348,6 +415,10 @@ func genFile(r *vh.Rand) []byte {
 				b.WriteString("\t// doc comment\n") // comment line: also a new run
 			case 4:
 				b.WriteString("\t/* block\n\t   comment */\n")
+			case 5:
+				if r.Chance(40) {
+					b.WriteString(lineDirective(r, false) + "\n") // column 1: a valid //line directive (and a comment line)
+				}
 			}
 			b.WriteString("\t" + genSpec(r, pool))
 			if r.Chance(8) && i+1 < n {
@@ -400,6 +471,9 @@ var fixed = []string{
 	"import (\n\t\"c\"\n\t\"c\"\n\t\"c\"\n\n\t\"b\"\n\t\"a\"\n)\n",
 	"import (\n\t\"c\" // k\n\t\"c\"\n\t\"c\"\n\n\t\"b\"\n\t\"a\"\n)\n",
 	"import ()\n",
+	"import (\n\t\"c\"\n\t/*line f.go:100:1*/\"b\"\n\t\"a\"\n)\n",
+	"import (\n\t\"z\"\n)\n\nimport (\n\t\"c\"\n\t\"b\"\n\t\"a\"\n)\n",
+	"import ()\n\nimport (\n\t\"b\"\n\t\"a\"\n)\n",
 	"import (\"a\"; \"a\")",
 	"import (\n\t\"a\" // c\n\t\"a\")",
 	"import (\n\t\"b\"; \"a\"; \"a\"\n\n\t\"d\"\n\t\"c\"\n)\n",
